@@ -3,6 +3,7 @@
    implementation returned. *)
 From BU Require Export Lib.Bytes.
 From BU Require Import Lib.Sha256 Base58.Base58 Wif.Wif.
+From BU Require Export Wif.WifHist.   (* the cases files name the constructors of wop *)
 
 Inductive case :=
 (* bchec.PrivKeyFromBytes(key); NewWIF(priv, net, compress).String() = out *)
@@ -12,7 +13,18 @@ Inductive case :=
 | Dec (s : list N) (cls : N) (key : list N) (compress : bool) (net : N)
 (* SerializePubKey of NewWIF(key, _, compress), with the curve point (x, y) of the key as computed
    by an independent ScalarBaseMult call (oracle for the dependency) *)
-| Pub (key : list N) (compress : bool) (x y : N) (out : list N).
+| Pub (key : list N) (compress : bool) (x y : N) (out : list N)
+(* a history on ONE value NewWIF(key, net, compress): flag assignments, String and SerializePubKey calls (the
+   harness overwrites every returned slice before the next call); outs = what each step returned ([] for an
+   assignment); (x, y) as in Pub *)
+| Hist (key : list N) (net : N) (compress : bool) (ops : list wop) (x y : N) (outs : list (list N)).
+
+Fixpoint lists_eqb (a b : list (list N)) : bool :=
+  match a, b with
+  | [], [] => true
+  | x :: a', y :: b' => list_eqb x y && lists_eqb a' b'
+  | _, _ => false
+  end.
 
 Definition check (c : case) : bool :=
   match c with
@@ -26,6 +38,8 @@ Definition check (c : case) : bool :=
       end
   | Pub key compress x y out =>
       list_eqb (serialize_pubkey (fun _ => (x, y)) (new_wif key 0 compress)) out
+  | Hist key net compress ops x y outs =>
+      lists_eqb (wrun (fun _ => (x, y)) (new_wif key net compress) ops) outs
   end.
 
 Fixpoint mism (i : nat) (cs : list case) : list nat :=
